@@ -3,6 +3,7 @@ import StorageModel.C15.Spec
 import StorageModel.C15.Config
 import StorageModel.C15.Cursor
 import StorageModel.C15.Order
+import StorageModel.C15.Extended
 /- model driver for C15: `run spec` reads case lines on stdin and prints one output line per case
    (spec = false: the engine model's output; spec = true: the spec's verdict).
 
@@ -10,6 +11,8 @@ import StorageModel.C15.Order
      op:  c/<s>/<id>/<name>/<roles>/<child>            create through store s (0 = A, 1 = A1, 2 = A2)
           u/<s>/<id>/<name>/<roles>/<child>/<chk>      update; chk = * (nil checker) | subset of "nrc" | -
           d/<s>/<id>                                   delete
+          w/<s>/<filter>                               DeleteWhere through store s; filter = t | n1 | r1
+     name 9 is the name the parent strategy refuses; so are more than three roles
      roles = - | r.r.r     child = n (nil) | <value>     ids 0..4 (0 = ""), values 0..4 (0 = "")
    output line: one segment per transaction, joined by " ;; ":
      <results> commit|abort E <events delivered> F <FindById…> Q <QueryIds…> I <Iterate…> X <index reads…> D <bucket dump>
@@ -50,7 +53,13 @@ def parseChk (s : String) : Option Checker :=
   if s == "*" then none
   else some ⟨s.contains 'n', s.contains 'r', s.contains 'c'⟩
 
-def parseOp (s : String) : Option Op :=
+def parseFilter : String → Option Filter
+  | "t" => some .tt
+  | "n1" => some (.nameEq 1)
+  | "r1" => some (.hasRole 1)
+  | _ => none
+
+def parseOp (s : String) : Option OpX :=
   match s.splitOn "/" with
   | ["c", sel, id, name, roles, child] => do
     let sel ← parseSel sel
@@ -70,9 +79,13 @@ def parseOp (s : String) : Option Op :=
     let sel ← parseSel sel
     let id ← parseNat? id
     pure (.delete sel id)
+  | ["w", sel, f] => do
+    let sel ← parseSel sel
+    let f ← parseFilter f
+    pure (.deleteWhere sel f)
   | _ => none
 
-def parseHist (s : String) : Option (List (List Op)) :=
+def parseHist (s : String) : Option (List (List OpX)) :=
   (s.splitOn ";").mapM fun tx => (tx.splitOn ",").mapM parseOp
 
 /-! rendering -/
@@ -84,6 +97,8 @@ def errStr : Err → String
   | .dupName => "dup:name"
   | .dupCode => "dup:code"
   | .nonnull => "nonnull"
+  | .invalidName => "invalid:name"
+  | .invalidRoles => "invalid:roles"
 
 def natList (l : List Nat) : String :=
   if l.isEmpty then "-" else ".".intercalate (l.map toString)
@@ -180,16 +195,16 @@ def evS (e : Ev) : String :=
 
 /-- run the operations of one transaction, collecting the per-operation results and the events
     queued for delivery at commit -/
-def runOps {σ : Type} (f : σ → Op → Except Err σ) (view : σ → St) (st : σ) (evf : St → Op → List Ev) :
-    List Op → List String → List Ev → (Option σ × List String × List Ev)
+def runOps {σ : Type} (f : σ → OpX → Except Err σ) (view : σ → St) (st : σ) (evf : St → OpX → List Ev) :
+    List OpX → List String → List Ev → (Option σ × List String × List Ev)
   | [], acc, evs => (some st, acc.reverse, evs)
   | op :: rest, acc, evs =>
     match f st op with
     | .ok st' => runOps f view st' evf rest ("ok" :: acc) (evs ++ evf (view st) op)
     | .error e => (none, (errStr e :: acc).reverse, [])
 
-def runHist {σ : Type} (f : σ → Op → Except Err σ) (view : σ → St) (st : σ) (evf : St → Op → List Ev) :
-    List (List Op) → List String → List String
+def runHist {σ : Type} (f : σ → OpX → Except Err σ) (view : σ → St) (st : σ) (evf : St → OpX → List Ev) :
+    List (List OpX) → List String → List String
   | [], acc => acc.reverse
   | tx :: rest, acc =>
     let (r, res, evs) := runOps f view st evf tx [] []
@@ -208,12 +223,6 @@ inductive Prov
 inductive Item
   | cur (s : Sel) (validOnly : Bool) (f : Filter) (steps : List Step)
   | qry (s : Sel) (f : Filter) (sorted : Bool) (p : Prov)
-
-def parseFilter : String → Option Filter
-  | "t" => some .tt
-  | "n1" => some (.nameEq 1)
-  | "r1" => some (.hasRole 1)
-  | _ => none
 
 def parseStep (x : String) : Option Step :=
   match x.toList with
@@ -279,17 +288,17 @@ def step (line : String) : String :=
   match splitSp line with
   | ["h", h] =>
     match parseHist h with
-    | some hist => " ;; ".intercalate (runHist (stepOp Config.current) id St.init eventsOf hist [])
+    | some hist => " ;; ".intercalate (runHist (stepOpX Config.current) id St.init (eventsOfXWith eventsOf) hist [])
     | none => "bad-case"
   | ["g", h] =>   -- the same stores with A2 (extended) registered before A1 (C15/Order.lean)
     match parseHist h with
-    | some hist => " ;; ".intercalate (runHist (stepOpOrd true Config.current) id St.init (eventsOfOrd true) hist [])
+    | some hist => " ;; ".intercalate (runHist (stepOpXOrd true Config.current) id St.init (eventsOfXWith (eventsOfOrd true)) hist [])
     | none => "bad-case"
   | ["k", h, its] =>
     match parseHist h, parseItems its with
     | some hist, some items =>
-      " ;; ".intercalate (runHist (stepOp Config.current) id St.init eventsOf hist [] ++
-        [itemsOut (modelItem (StorageModel.C15.run Config.current St.init hist)) items])
+      " ;; ".intercalate (runHist (stepOpX Config.current) id St.init (eventsOfXWith eventsOf) hist [] ++
+        [itemsOut (modelItem (runX Config.current St.init hist)) items])
     | _, _ => "bad-case"
   | _ => "bad-case"
 
@@ -297,16 +306,16 @@ def specStep (line : String) : String :=
   match splitSp line with
   | ["h", h] =>
     match parseHist h with
-    | some hist => " ;; ".intercalate (runHist specOp derive ([] : Ents) eventsOf hist [])
+    | some hist => " ;; ".intercalate (runHist specOpX derive ([] : Ents) (eventsOfXWith eventsOf) hist [])
     | none => "bad-case"
   | ["g", h] =>   -- the table specification does not know of a registration order; the events are delivered in it
     match parseHist h with
-    | some hist => " ;; ".intercalate (runHist specOp derive ([] : Ents) (eventsOfOrd true) hist [])
+    | some hist => " ;; ".intercalate (runHist specOpX derive ([] : Ents) (eventsOfXWith (eventsOfOrd true)) hist [])
     | none => "bad-case"
   | ["k", h, its] =>
     match parseHist h, parseItems its with
     | some hist, some items =>
-      " ;; ".intercalate (runHist specOp derive ([] : Ents) eventsOf hist [] ++ [itemsOut (specItem (specRun [] hist)) items])
+      " ;; ".intercalate (runHist specOpX derive ([] : Ents) (eventsOfXWith eventsOf) hist [] ++ [itemsOut (specItem (specRunX [] hist)) items])
     | _, _ => "bad-case"
   | _ => "bad-case"
 
